@@ -28,27 +28,23 @@ backend: sat
 */
 /*@unit
 name: url_done
-define: U_DONE, U_REAL_STR
+define: U_DONE, U_REAL_STR, U_PLAIN
 src: url.c
-enforce: spif_url_done
-backend: cadical
-objbits: 9
-timeout: 250
-funcs: spif_str_del, spif_str_done
-*/
-/*@unit
-name: url_del
-define: U_DEL, U_REAL_STR
-src: url.c
-enforce: spif_url_del
-backend: cadical
-objbits: 9
-timeout: 250
+backend: sat
+flags: --memory-leak-check
 funcs: spif_url_done, spif_str_del, spif_str_done
 */
 /*@unit
+name: url_del
+define: U_DEL, U_REAL_STR, U_PLAIN
+src: url.c
+backend: sat
+flags: --memory-leak-check
+funcs: spif_url_del, spif_url_done, spif_str_del, spif_str_done
+*/
+/*@unit
 name: url_init_from_ptr
-define: U_INIT_FROM_PTR, NET_NO_CONTENT
+define: U_INIT_FROM_PTR
 src: url.c
 enforce: spif_url_init_from_ptr
 replace: spif_str_init_from_ptr, spif_obj_set_class, spif_url_parse
@@ -57,7 +53,7 @@ objbits: 9
 */
 /*@unit
 name: url_init_from_str
-define: U_INIT_FROM_STR, NET_NO_CONTENT
+define: U_INIT_FROM_STR
 src: url.c
 enforce: spif_url_init_from_str
 replace: spif_str_init_from_ptr, spif_obj_set_class, spif_url_parse
@@ -115,9 +111,59 @@ spif_bool_t spif_str_del(spif_str_t self)
 # include "url.h"
 #endif
 #include "src/url.c"
+#ifndef U_PLAIN
 #define NET_URL_API
 #include "url.h"
+#endif
 
+#ifdef U_PLAIN
+/* url_done / url_del as PLAIN harnesses (loop-free, nothing unwound, sizes symbolic): under DFCC the 15
+ * deallocations of one spif_url_done made a 7.2 M-variable instance (> 8 GB).  The harness builds any URL
+ * object (text in either legal state, each component absent or present with a buffer of symbolic size),
+ * calls the function and checks: reusable empty state / object gone; every block the object owned is
+ * released exactly once (cbmc's double-free and use-after-free checks, --memory-leak-check with nothing
+ * else live except a bystander block that must survive). */
+static spif_str_t mk_comp(void)
+{
+    if (nondet_bool()) return NULL;
+    spif_str_t p = malloc(sizeof(spif_const_str_t));
+    p->len = nondet_long(); p->size = nondet_long();
+    __CPROVER_assume(p->len >= 0 && p->len < p->size && p->size <= VCAP);
+    p->s = malloc(p->size);
+    return p;
+}
+void harness(void)
+{
+    char *bystander = malloc(1);
+    spif_url_t u = malloc(sizeof(spif_const_url_t));
+    SPIF_CLASS_VAR(url) = &u_class;
+    NSTR(u)->parent.cls = SPIF_CLASS_VAR(url);
+    if (nondet_bool()) { NSTR(u)->s = NULL; NSTR(u)->len = 0; NSTR(u)->size = 0; }
+    else {
+        NSTR(u)->len = nondet_long(); NSTR(u)->size = nondet_long();
+        __CPROVER_assume(NSTR(u)->len >= 0 && NSTR(u)->len < NSTR(u)->size && NSTR(u)->size <= VCAP);
+        NSTR(u)->s = malloc(NSTR(u)->size);
+    }
+    u->proto = mk_comp(); u->user = mk_comp(); u->passwd = mk_comp(); u->host = mk_comp();
+    u->port = mk_comp(); u->path = mk_comp(); u->query = mk_comp();
+# ifdef U_DONE
+    spif_bool_t r = spif_url_done(u);
+    __CPROVER_assert(r == TRUE, "done returns TRUE");
+    __CPROVER_assert(URL_COMPS_NULL(u), "done leaves every component absent");
+    __CPROVER_assert(NSTR(u)->s == NULL && NSTR(u)->len == 0 && NSTR(u)->size == 0, "done leaves the text in the empty state");
+    __CPROVER_assert(NSTR(u)->parent.cls == SPIF_CLASS_VAR(url), "done leaves the class alone");
+    *bystander = 1;                      /* still live */
+    VERIF_CANARY();
+    free(u);                             /* the caller's own block; everything else must be gone already */
+# else
+    spif_bool_t r = spif_url_del(u);
+    __CPROVER_assert(r == TRUE, "del returns TRUE");
+    *bystander = 1;
+    VERIF_CANARY();
+# endif
+    free(bystander);
+}
+#else
 void harness(void)
 {
 #if defined(U_INIT)
@@ -139,3 +185,4 @@ void harness(void)
 #endif
     VERIF_CANARY();
 }
+#endif
